@@ -136,3 +136,10 @@ Definition go_slice3 (v : view) (lo hi max : Z) : res view :=
 
 (* v[lo:hi] *)
 Definition go_slice2 (v : view) (lo hi : Z) : res view := go_slice3 v lo hi (vcap v).
+
+(* w[lo:hi] of a slice whose backing array continues with [spare] up to its capacity (the result
+   of an append through the oracle): exact for hi <= cap(w) *)
+Definition go_sub_cap {A : Type} (l spare : list A) (lo hi : Z) : res (list A) :=
+  if (0 <=? lo) && (lo <=? hi) && (hi <=? zlen l + zlen spare)
+  then Ok (firstn (Z.to_nat (hi - lo)) (skipn (Z.to_nat lo) (l ++ spare)))
+  else Panic PSlice.
